@@ -89,6 +89,28 @@ void pv_transcript(uint64_t h);                          /* per-case transcript 
 void pv_tlog(const char* fmt, ...) __attribute__((format(printf, 1, 2)));  /* transcript text, printed in --only/--verbose mode */              /* boolean facts for the evidence (e.g. exhaustive) */
 uint64_t pv_violation_count(void);
 
+/* MemorySanitizer flavour (clang -fsanitize=memory): probes at the two boundaries.  Outside that flavour they compile to nothing.
+ * pv_msan_probe: bytes the library hands out (return values, output buffers, arguments given to dependencies) must be initialised;
+ * a probe that fails prints a MemorySanitizer-style line and aborts while the current API call is still recorded, so that the
+ * orchestrator attributes it to the library call.  pv_msan_poison: blocks handed to the library by the injected allocator are
+ * declared uninitialised (on top of being junk-filled). */
+#if defined(__has_feature)
+#if __has_feature(memory_sanitizer)
+#define PV_MSAN 1
+#endif
+#endif
+#ifdef PV_MSAN
+void pv_msan_probe(const void* p, size_t n, const char* what);
+void pv_msan_probe_str(const char* s, size_t cap, const char* what);   /* initialised up to and including a terminator within cap bytes */
+void pv_msan_poison(void* p, size_t n);
+void pv_msan_unpoison(const void* p, size_t n);
+#else
+#define pv_msan_probe(p, n, what) ((void)0)
+#define pv_msan_probe_str(s, cap, what) ((void)0)
+#define pv_msan_poison(p, n) ((void)0)
+#define pv_msan_unpoison(p, n) ((void)0)
+#endif
+
 /* small helpers */
 char* pv_hex(const void* p, size_t n);                  /* rotating static buffers */
 int pv_unhex(const char* s, uint8_t* out, size_t cap);
